@@ -28,71 +28,71 @@ type Engine struct {
 	ifaceCon  map[string]*Contract // "pkgpath.Iface.Method"
 	funcsByK  map[string]*ssa.Function
 
-	typeIDs   map[string]int
-	typeByID  []types.Type
-	nObj      int
-	nVar      int
-	byteArrs  map[string]bool // array vars holding bytes (0..255)
-	strArrs   map[string]bool // SArrS vars
-	strVars   map[string]bool // SStr vars
-	initHeap  map[*Obj]Value  // shared initial content of lazily materialised objects
-	lazyFacts map[*Obj][]*Term
-	globals   map[*ssa.Global]*Obj
-	initGhost map[string]Value
-	restObjs  map[string]*Obj
-	restVals  map[string]Value
-	entries   map[string]*EntryInfo
-	ghostSorts map[string]string
-	refPayload map[*Term]IfaceV
-	symByRef   map[*Term]*SymIface
-	refFactsBy map[string][]*Term
-	globalRefs []string
-	extraTerms []*Term
-	symMode    int
-	propAll    map[string]bool
+	typeIDs              map[string]int
+	typeByID             []types.Type
+	nObj                 int
+	nVar                 int
+	byteArrs             map[string]bool // array vars holding bytes (0..255)
+	strArrs              map[string]bool // SArrS vars
+	strVars              map[string]bool // SStr vars
+	initHeap             map[*Obj]Value  // shared initial content of lazily materialised objects
+	lazyFacts            map[*Obj][]*Term
+	globals              map[*ssa.Global]*Obj
+	initGhost            map[string]Value
+	restObjs             map[string]*Obj
+	restVals             map[string]Value
+	entries              map[string]*EntryInfo
+	ghostSorts           map[string]string
+	refPayload           map[*Term]IfaceV
+	symByRef             map[*Term]*SymIface
+	refFactsBy           map[string][]*Term
+	globalRefs           []string
+	extraTerms           []*Term
+	symMode              int
+	propAll              map[string]bool
 	probesRan, probesBad []string
-	maybeNilRet map[string]bool // Nil variables of pointer results of external (value, error) functions
-	pendingFree map[string]Value
-	obls      []*Obligation
-	assumpLog map[string]bool
-	errors    []string
-	curFn     string
-	curCase   int
-	curTags   map[string]bool // tags to generate for (nil = all)
-	pathCount int
-	inlineDep int
-	trace     bool
-	ordCache  map[*ssa.Function]map[ssa.Instruction]int
-	loopCache map[*ssa.Function]*loopInfo
-	constCache map[string]int64
+	maybeNilRet          map[string]bool // Nil variables of pointer results of external (value, error) functions
+	pendingFree          map[string]Value
+	obls                 []*Obligation
+	assumpLog            map[string]bool
+	errors               []string
+	curFn                string
+	curCase              int
+	curTags              map[string]bool // tags to generate for (nil = all)
+	pathCount            int
+	inlineDep            int
+	trace                bool
+	ordCache             map[*ssa.Function]map[ssa.Instruction]int
+	loopCache            map[*ssa.Function]*loopInfo
+	constCache           map[string]int64
 }
 
 func newEngine() *Engine {
 	e := &Engine{
-		ssaPkgs:   map[string]*ssa.Package{},
-		contracts: map[string]*Contract{},
-		specFuns:  map[string]*SpecFun{},
-		ifaceCon:  map[string]*Contract{},
-		funcsByK:  map[string]*ssa.Function{},
-		typeIDs:   map[string]int{},
-		byteArrs:  map[string]bool{},
-		strArrs:   map[string]bool{},
-		strVars:   map[string]bool{},
-		initHeap:  map[*Obj]Value{},
-		lazyFacts: map[*Obj][]*Term{},
-		globals:   map[*ssa.Global]*Obj{},
-		initGhost: map[string]Value{},
-		restObjs:  map[string]*Obj{},
-		restVals:  map[string]Value{},
-		entries:   map[string]*EntryInfo{},
+		ssaPkgs:    map[string]*ssa.Package{},
+		contracts:  map[string]*Contract{},
+		specFuns:   map[string]*SpecFun{},
+		ifaceCon:   map[string]*Contract{},
+		funcsByK:   map[string]*ssa.Function{},
+		typeIDs:    map[string]int{},
+		byteArrs:   map[string]bool{},
+		strArrs:    map[string]bool{},
+		strVars:    map[string]bool{},
+		initHeap:   map[*Obj]Value{},
+		lazyFacts:  map[*Obj][]*Term{},
+		globals:    map[*ssa.Global]*Obj{},
+		initGhost:  map[string]Value{},
+		restObjs:   map[string]*Obj{},
+		restVals:   map[string]Value{},
+		entries:    map[string]*EntryInfo{},
 		ghostSorts: map[string]string{},
 		propAll:    map[string]bool{},
 		refPayload: map[*Term]IfaceV{},
 		symByRef:   map[*Term]*SymIface{},
 		refFactsBy: map[string][]*Term{},
-		assumpLog: map[string]bool{},
-		ordCache:  map[*ssa.Function]map[ssa.Instruction]int{},
-		loopCache: map[*ssa.Function]*loopInfo{},
+		assumpLog:  map[string]bool{},
+		ordCache:   map[*ssa.Function]map[ssa.Instruction]int{},
+		loopCache:  map[*ssa.Function]*loopInfo{},
 		constCache: map[string]int64{},
 	}
 	theEngine = e
